@@ -16,7 +16,7 @@ GEN = "impl<T: PartialEq + Eq + Hash> AvailableValueMap<T>"
 KM = 'vstd::std_specs::hash::obeys_key_model::<T>()'
 
 # node types and the accessors already under contract in unit `nodes` (re-verified here: a Verus file is self-contained)
-KEEP_FNS = ('With::get', 'With::get_cloned', 'With::eq', 'Imm::value', 'writes_to')
+KEEP_FNS = ('With::get', 'With::get_cloned', 'With::eq', 'Imm::value', 'writes_to', 'stores_to_memory', 'reads_from_memory')
 items = [i for i in _nodes.items if 'fn' not in i or i['fn'] in KEEP_FNS]
 items += [
     {'file': P + 'register_register_properties.rs', 'item': 'impl RegisterProperties for Register :: fn is_const_zero', 'wrap': 'impl Register', 'fn': 'is_const_zero',
@@ -111,6 +111,20 @@ items += [
                            '==> sound_regs(final(available_out)@, post, c, false)'),
                  ('frame', 'forall|r: Register| arch_writes(*node) != Some(r) ==> (final(available_out)@.contains_key(r) == old(available_out)@.contains_key(r) '
                            '&& (old(available_out)@.contains_key(r) ==> final(available_out)@[r] == old(available_out)@[r]))')]},
+    {'file': AV, 'item': 'fn rule_push_value_to_csr_memory', 'fn': 'rule_push_value_to_csr_memory', 'attrs': 'drop',
+     'requires_text': ['rule_push_value_to_csr_memory(&node.node(), &mut out_memory_n, &out_reg_n);'],
+     'rewrites': [('lit', 'node: &impl InstructionProperties,', 'node: &ParserNode,', 1)],   # R11
+     'body_start': ['proof { axiom_register_key_model(); axiom_memloc_key_model(); }'],
+     'ensures': [('csr_free', 'no_csr_fact(available_in@) ==> final(memory_out)@ == old(memory_out)@'),
+                 ('frame', 'forall|l: MemoryLocation| !(l is CsrRegisterValueOffset) ==> (final(memory_out)@.contains_key(l) == old(memory_out)@.contains_key(l) '
+                           '&& (old(memory_out)@.contains_key(l) ==> final(memory_out)@[l] == old(memory_out)@[l]))')]},
+    {'file': AV, 'item': 'fn rule_pull_value_from_csr_memory', 'fn': 'rule_pull_value_from_csr_memory', 'attrs': 'drop',
+     'requires_text': ['rule_pull_value_from_csr_memory('],
+     'rewrites': [('lit', 'node: &impl InstructionProperties,', 'node: &ParserNode,', 1)],   # R11
+     'body_start': ['proof { axiom_register_key_model(); axiom_memloc_key_model(); }'],
+     'ensures': [('csr_free', 'no_csr_fact(old(available_out)@) ==> final(available_out)@ == old(available_out)@'),
+                 ('frame', 'forall|r: Register| arch_writes(*node) != Some(r) ==> (final(available_out)@.contains_key(r) == old(available_out)@.contains_key(r) '
+                           '&& (old(available_out)@.contains_key(r) ==> final(available_out)@[r] == old(available_out)@[r]))')]},
 ]
 
 UNIT = {
@@ -121,7 +135,7 @@ UNIT = {
     'prelude_inline': [_nodes.STRUCT_EQ],
     'items': items, 'functions': [], 'obligations': [],
 }
-PROPS = {'rule_zero_to_const': ['C01'], 'rule_perform_math_ops': ['C01'], 'math_op': ['C01', 'C08'], 'scalar_op': ['C01', 'C08'], 'rule_expand_address_for_load': ['C01'], 'rule_value_from_stack': ['C01'], 'Map::get': ['C01'], 'Map::insert': ['C01'], 'Map::into_iter': ['C01'], 'Map::stack_offset': ['C01'], 'Map::is_original_value': ['C01'],
+PROPS = {'rule_zero_to_const': ['C01'], 'rule_push_value_to_csr_memory': ['C01'], 'rule_pull_value_from_csr_memory': ['C01'], 'stores_to_memory': ['C01'], 'reads_from_memory': ['C01'], 'rule_perform_math_ops': ['C01'], 'math_op': ['C01', 'C08'], 'scalar_op': ['C01', 'C08'], 'rule_expand_address_for_load': ['C01'], 'rule_value_from_stack': ['C01'], 'Map::get': ['C01'], 'Map::insert': ['C01'], 'Map::into_iter': ['C01'], 'Map::stack_offset': ['C01'], 'Map::is_original_value': ['C01'],
          'is_const_zero': ['C01'], 'is_stack_pointer': ['C01'], 'writes_to': ['C01'], 'With::get': ['C01'], 'With::get_cloned': ['C01'], 'With::eq': ['C01'], 'Imm::value': ['C01']}
 TEXTS = {
     ('rule_zero_to_const', 'regs_sound'): 'for every machine state and activation: if the register facts handed in are true, the register facts left behind are true (x0 + i is only turned into the constant i where that fact survived the instruction)',
@@ -135,6 +149,8 @@ TEXTS = {
     ('rule_perform_math_ops', 'result'): 'the value computed for rd is: the folded constant when both operand facts are constants; entry-value + folded constant when the left operand is entry-relative, the right a constant and the operation add or sub; the same with the operands swapped for add only; nothing otherwise',
     ('math_op', 'table'): 'the folding operation chosen for a mnemonic is the one the ISA manual assigns to it (all 110 mnemonics, both directions)',
     ('scalar_op', 'table'): 'a scalar operation is add or sub and is the operation the ISA manual assigns to the mnemonic',
+    'csr_free': 'when no register fact is a CSR fact - every program of the property\'s subset, which has no CSR instructions - the rule changes nothing',
+    ('rule_push_value_to_csr_memory', 'frame'): 'only facts about memory addressed through a CSR value are touched',
     'frame': 'only the fact of the written register is touched',
     'view': 'behaves as the same operation on the abstract map register/location -> fact',
     'post': 'returns exactly what its specification says',
